@@ -57,7 +57,8 @@ CONDS = [cond_b_small, cond_s_has_a, cond_alt, cond_none, cond_truthy_nonbool]
 
 FIELDS = [('id', 'integer'), ('s', 'string'), ('b', 'integer'), ('n', 'number'), ('d', 'date')]
 S_POOL = ['a', 'ab', '', 'x', 'A', 'a ', None]
-B_POOL = [0, 1, 2, 3, 5, None, -1]
+N_POOL_NOTE = 'Decimal(1) and Decimal(1.0) are equal keys; -1/-2 and 0/2**61-1 collide only in hash()'
+B_POOL = [0, 1, 2, 3, 5, None, -1, -2, 2 ** 61 - 1]      # hash(-1) == hash(-2), hash(0) == hash(2**61-1)
 N_POOL = [D('1'), D('1.0'), D('2.5'), None, D('-1')]
 D_POOL = [datetime.date(2020, 1, 1), datetime.date(2020, 1, 2), None]
 
